@@ -1,4 +1,5 @@
 """C18 - graceful shutdown: DPR to ready peers, drain, refuse newcomers, stop all threads."""
+import errno
 import types
 from engine import hx
 from engine.env import STUBS, WORLD, VSock  # noqa: F401
@@ -21,9 +22,23 @@ B_KINDS = ["none", "second_of_peer1", "peer2_ready", "peer2_pre_cer", "peer2_cer
 REACT = ["dpa_prompt", "dpa_late", "never", "close", "dwa_then_dpa", "dpa_dwa_same_read"]
 
 
-def scenario(sa: int, kb: int, ra: int, rb: int, force: bool, wt: int, newcomer: bool, deadline: bool, eager_io: bool) -> bool:
+class ResetSock(VSock):
+    """an accepted socket whose far end has already reset the connection (connect, then close with SO_LINGER 0: a health probe,
+    a port scan): the kernel has forgotten the peer"""
+
+    def getpeername(self):
+        raise OSError(errno.ENOTCONN, "Transport endpoint is not connected")
+
+    def recv(self, n, flags=0):
+        raise OSError(errno.ECONNRESET, "Connection reset by peer")
+
+    def send(self, b, flags=0):
+        raise OSError(errno.EPIPE, "Broken pipe")
+
+
+def scenario(sa: int, kb: int, ra: int, rb: int, force: bool, wt: int, newcomer: int, deadline: bool, eager_io: bool) -> bool:
     """
-    pre: sa == P["sa"] and kb == P["kb"] and 0 <= ra < len(REACT) and 0 <= rb < len(REACT) and wt in (2, 6)
+    pre: sa == P["sa"] and kb == P["kb"] and 0 <= ra < len(REACT) and 0 <= rb < len(REACT) and wt in (2, 6) and 0 <= newcomer <= 2
     pre: (not force) or (ra == 0 and rb == 0)
     pre: P["sa"] in (3, 4) or ra == 0
     pre: P["kb"] in (1, 2) or rb == 0
@@ -37,7 +52,7 @@ def scenario(sa: int, kb: int, ra: int, rb: int, force: bool, wt: int, newcomer:
     react = [REACT[hx.concretize_range(ra, 0, len(REACT))], REACT[hx.concretize_range(rb, 0, len(REACT))]]
     W = 2 if wt == 2 else 6
     # every input is a choice: fix the remaining ones (one solver-decided branch each), then the shutdown runs natively
-    force, newcomer, deadline, eager_io = bool(hx.concretize(force)), bool(hx.concretize(newcomer)), bool(hx.concretize(deadline)), bool(hx.concretize(eager_io))
+    force, newcomer, deadline, eager_io = bool(hx.concretize(force)), hx.concretize_range(newcomer, 0, 3), bool(hx.concretize(deadline)), bool(hx.concretize(eager_io))
     with hx.untraced():
         obs = _scenario_body(sa_n, kb_n, react, W, force, newcomer, deadline, eager_io)
     return hx.check(inputs, obs, ("",), "graceful shutdown")
@@ -145,7 +160,7 @@ def _scenario_body(sa_n, kb_n, react, W, force, newcomer, deadline, eager_io):
             if kb_n == "peer2_cer_during_stop" and tick[0] == 1 and not socks[1].closed:
                 socks[1].inq.append(B.cer(B.PEER_HOSTS[1], hbh=901, e2e=901).as_bytes())
             if newcomer and tick[0] == 1:
-                ns = VSock(WORLD)
+                ns = VSock(WORLD) if newcomer == 1 else ResetSock(WORLD)        # (2: the newcomer has already reset its end)
                 new_sock[0] = ns
                 b.listener.backlog.append(ns)
             h.settle()
